@@ -29,12 +29,17 @@ def DType.maxFinite : DType → Rat
   | .float32 => 340282346638528859811704183484516925440
   | _ => 0
 
+/-- `±inf` of the float dtypes is represented by `±infEnc` = ±2²⁰⁰, a rational above every finite float16 / float32 value:
+the map (finite float ↦ itself, ±inf ↦ ±infEnc) is an order embedding of the extended floats into ℚ, and `validate`,
+`generate_value`, `==` and the conversions only compare and copy bounds and values (NaN is not modelled) -/
+def infEnc : Rat := 1606938044258990275541962092341162602522202993782792835301376
+
 /-- is the rational a value of the dtype?  Integer dtypes and bool: an integer inside the range.  Floats: a finite
-magnitude (the mantissa is NOT modelled: stored bounds and values come from real arrays of that dtype) -/
+magnitude or `±inf` (the mantissa is NOT modelled: stored bounds and values come from real arrays of that dtype) -/
 def DType.fits (d : DType) (x : Rat) : Bool :=
   match d.intRange with
   | some (lo, hi) => x.den == 1 && decide (lo ≤ x.num) && decide (x.num ≤ hi)
-  | none => decide (-d.maxFinite ≤ x) && decide (x ≤ d.maxFinite)
+  | none => (decide (-d.maxFinite ≤ x) && decide (x ≤ d.maxFinite)) || x == infEnc || x == -infEnc
 
 /-- `jnp.asarray(x, dtype)` for a Python int / an int32 array element `x` and an integer dtype: two's-complement
 wrap-around (no error, no saturation); bool: non-zero -/
